@@ -100,6 +100,13 @@ impl BarAbs {
                     lit.push('{');
                     i += 1;
                 }
+                '{' if i + 1 < t.len() && t[i + 1] == '\n' => {
+                    // ... also followed by a line break, which then is part of the literal text
+                    // (not a template line break: it does not close a segment)
+                    lit.push('{');
+                    lit.push('\n');
+                    i += 2;
+                }
                 '{' => {
                     if !lit.is_empty() {
                         cur.push_str(&self.expand(&lit));
